@@ -7,6 +7,9 @@ package checks
 // (all cores when there are none), and the most recent update of a bound workload must not be a remap.
 
 import (
+	"time"
+	"sync/atomic"
+	"sync"
 	"context"
 	"encoding/json"
 	"fmt"
@@ -29,6 +32,9 @@ type remapClusterCase struct {
 	Ops      []sim.Op      `json:"ops"`
 	FailedAt int           `json:"failed_at_op"`
 	Events   []string      `json:"events_of_failing_op,omitempty"`
+	// Bursts: indices i such that ops[i] and ops[i+1] (two creates on one node, one bound and one unbound) run
+	// concurrently while every other engine update is delayed by 25 ms: their two remaps follow each other closely
+	Bursts []int `json:"concurrent_pairs_at,omitempty"`
 }
 
 func engineCPU(p resourcetypes.Resources) (cores string, remap bool, ok bool) {
@@ -143,8 +149,55 @@ func c32Cluster(t *testing.T, env *vkit.Env, rec *vkit.Rec, replay *remapCluster
 		}
 		rec.Eval()
 		mixed := false
-		for oi, op := range cs.Ops {
+		burstAt := map[int]bool{}
+		for _, i := range cs.Bursts {
+			burstAt[i] = true
+		}
+		for oi := 0; oi < len(cs.Ops); oi++ {
+			op := cs.Ops[oi]
 			seq0 := w.b.Seq()
+			if burstAt[oi] && oi+1 < len(cs.Ops) {
+				w.cl.WaitQuiet(10 * time.Second)
+				var nUpd int64
+				w.b.OnCall = func(ev sim.Event) {
+					if ev.Op == "VirtualizationUpdateResource" && atomic.AddInt64(&nUpd, 1)%2 == 1 {
+						time.Sleep(25 * time.Millisecond)
+					}
+				}
+				w.b.Arm(nil)
+				pair := []sim.Op{op, cs.Ops[oi+1]}
+				results := make([]*sim.Result, 2)
+				var wg sync.WaitGroup
+				for j := range pair {
+					wg.Add(1)
+					go func(j int) {
+						defer wg.Done()
+						results[j] = w.cl.Exec(sim.NewModel(), pair[j], fmt.Sprintf("burst%d-%d", oi, j))
+					}(j)
+					time.Sleep(time.Duration(oi%4) * time.Millisecond)
+				}
+				wg.Wait()
+				if !w.cl.WaitQuiet(20 * time.Second) {
+					rec.Count("quiescence_timeouts", 1)
+				}
+				w.b.Disarm()
+				w.b.OnCall = nil
+				for j := range pair {
+					w.model.Apply(pair[j], results[j])
+					rec.Count("cluster/ops/"+pair[j].Kind, 1)
+					if results[j].TimedOut {
+						rec.Inconclusive("op %s timed out", pair[j].Kind)
+						return
+					}
+				}
+				rec.Count("cluster/concurrent_pairs", 1)
+				oi++
+				if !check(cs, oi, seq0) {
+					return
+				}
+				mixed = true
+				continue
+			}
 			res := w.exec(op, nil)
 			rec.Count("cluster/ops/"+op.Kind, 1)
 			if res.TimedOut {
@@ -186,6 +239,18 @@ func c32Cluster(t *testing.T, env *vkit.Env, rec *vkit.Rec, replay *remapCluster
 		}
 		cs := &remapClusterCase{Topology: topo}
 		for k := 10 + r.Intn(12); k > 0; k-- {
+			if k%5 == 0 { // a concurrent pair: an unbound and a bound create on the same node
+				node := topo.Nodes[r.Intn(len(topo.Nodes))]
+				a := sim.Op{Kind: "create", App: "app", Entry: "web", Pod: node.Pod, Strategy: "AUTO", Count: 1, Includes: []string{node.Name}, Res: sim.Res{CPU: 0.3, Memory: 1 << 24}}
+				b := a
+				b.Res = sim.Res{Bind: true, CPU: 1, Memory: 1 << 24}
+				if r.Intn(2) == 0 {
+					a, b = b, a
+				}
+				cs.Bursts = append(cs.Bursts, len(cs.Ops))
+				cs.Ops = append(cs.Ops, a, b)
+				continue
+			}
 			cs.Ops = append(cs.Ops, c32GenOp(r, topo))
 		}
 		run(cs)
